@@ -71,10 +71,14 @@ def check_setters(ctx, f, R):
         said = set()
         for t in ts:
             before_st = R.nodes[t['node']]['state']
+            if t['state'] == before_st:
+                continue        # the same scalar state: every reader answers what it answered before
             for r in bool_roles:
                 if r == own_role or r in said:
                     continue
                 b, a = R.read(r, before_st)[0], R.read(r, t['state'])
+                if a[0] is None and b is None:
+                    continue    # a reader the analysis can decide neither before nor after the call is the reader's problem (reported by C17 W4 / W7 in every state)
                 if a[0] is None or a[0] != b:
                     said.add(r)
                     lost.append('%s after %s: what %s recorded reads %s%s, it read %s before the call' % (
